@@ -19,8 +19,8 @@ META = dict(
 
 # TLC evaluates the transcribed machine at ~0.3 ms per case, so the bounds are set by the time budget
 BOUNDS = {"quick": [dict(A1=4, A2=3, A3=1, MaxStr=5, WithTab="FALSE")],
-          "thorough": [dict(A1=6, A2=3, A3=2, MaxStr=7, WithTab="FALSE"),
-                       dict(A1=0, A2=0, A3=0, MaxStr=6, WithTab="TRUE")]}
+          "thorough": [dict(A1=5, A2=3, A3=2, MaxStr=7, WithTab="FALSE"),
+                       dict(A1=0, A2=0, A3=0, MaxStr=5, WithTab="TRUE")]}
 WITNESSES = ("WitnessEscapedSingle", "WitnessTrailingRun", "WitnessEmptyArg", "WitnessPushback", "WitnessEmptyTokens")
 
 
@@ -83,7 +83,7 @@ def run(ctx):
     b = BOUNDS[ctx.tier][0]
     ctx.rule("argument lists: [], 1 arg of <=%(A1)s chars, 2 args of <=%(A2)s chars, 3 args of <=%(A3)s chars, quoted by "
              "the spec's rule and joined with a space; arbitrary strings of <=%(MaxStr)s chars" % b
-             + ("" if ctx.quick else " (and of <=6 chars with TAB added)")
+             + ("" if ctx.quick else " (and of <=5 chars with TAB added)")
              + "; alphabet {a, space, \", ', \\}; both single_quotes_allowed settings; all enumerated by TLC. Non-trivial = "
              "a quoted list containing a syntax character or an empty argument, or a raw string that is not returned "
              "as one identical token")
